@@ -444,6 +444,17 @@ fn main() {
                 cfg.retention = Some(5 + (i as u32 * 7) % 33);
             }
         }
+        // dense blocks in some histories: > 1024 commitments per batch -> parallel subtree chunks
+        if i % 4 == 3 {
+            cfg.dense_outputs = 40;
+            cfg.pools.truncate(1);
+            cfg.nu6_3 = cfg.nu6_3 || cfg.pools.contains(&Pool::Ironwood);
+            cfg.initial_len = cfg.initial_len.min(70);
+            cfg.max_batch = 150;
+            cfg.steps = cfg.steps.min(14);
+        }
+        vh_wallet::hooks::install(if i % 2 == 0 { args.shard_seed() | 1 } else { 0 });
+        let _ = vh_wallet::hooks::take();
         let mut mon = C06 { every: 1, ..Default::default() };
         let res = guard(|| {
             let mut h = Hist::new(cfg.clone(), rng);
@@ -453,6 +464,13 @@ fn main() {
         if let Err(p) = res {
             r.violation(&format!("C06:panic:{}", panic_class(&p)), p, json!({"cfg": cfg.to_json(), "hist": i}));
         }
+        let ev = vh_wallet::hooks::take();
+        let chunks = ev.iter().filter(|e| e.0 == "subtree_chunk").count() as u64;
+        let par = ev.iter().filter(|e| e.0 == "subtree_chunk" && e.2 >= 1).count() as u64;
+        r.count("subtree_chunks_built", chunks);
+        r.count("subtree_chunks_beyond_first_in_batch", par);
+        let threads: BTreeSet<u64> = ev.iter().filter(|e| e.0 == "subtree_chunk").map(|e| e.1).collect();
+        r.set_max("max_threads_building_subtree_chunks", threads.len() as u64);
     }
     r.finish();
 }
